@@ -15,7 +15,8 @@ THEOREMS = ["LNN.C16_leaves_invariant",
             "LNN.C16_fol_reset_reads_data",
             "LNN.C16_fol_reset_is_fresh_plus_rows",
             "LNN.C16_fol_reset_exact_of_no_growth",
-            "LNN.C16_fol_rerun_equal_of_no_growth"]
+            "LNN.C16_fol_rerun_equal_of_no_growth",
+            "LNN.C16_layer_reset_is_fresh_plus_rows"]
 MODULES = ["LnnVerif.Props.C16"]
 FACETS = {"bounds", "reported"}
 
